@@ -274,7 +274,8 @@ def _obs():
         obs.append(Ob('K2', 'k2_sql_bool', 'SQLite side: ' + what, 'BOOLEAN column of <=%d rows of 0/1/NULL' % rows,
                       param={'rows': rows, 'kind': 'bool'}, timeout=to, tier=tier, stubs=['sqldouble'],
                       known=['C07.no-duplicates-bool-date']))
-    for rows, nc, tier, to in ((2, 2, Q, 400), (3, 2, T, 2400)):
+    # (3 rows so that the number of distinct values can exceed the patched MAX_CATEGORIES also in the quick tier)
+    for rows, nc, tier, to in ((2, 2, Q, 400), (3, 1, Q, 400), (3, 2, T, 2400)):
         obs.append(Ob('K2', 'k2_sql_text', 'SQLite side, string field: lengths in characters, allowed_values iff at '
                       'most MAX_CATEGORIES, no_duplicates, max_nulls; nothing but the type for an empty table',
                       'TEXT column of <=%d rows of symbolic strings len<=%d or NULL; MAX_CATEGORIES patched to %d'
